@@ -36,6 +36,32 @@ def main():
         coq_build(["Model/LiveCases.vo"])
     chk = [livecheck.c11]
     livegen.run_live_family(ck, "directed_schedules", directed(rng), chk, PID)
+    # a strategy registered with the framework AFTER the first snapshots of a new connection were processed (its bets were reported as belonging
+    # to an unknown strategy until then): once registered, its live bets are adopted from the next full image.  Implementation + convergence
+    # checker only (the model's events fix the set of known strategies per history).
+    lcases = []
+    ok = livegen.CLEAN
+    for k in range(24 if thorough else 8):
+        sel = [101, 202][k % 2]
+        steps = [["book", "OPEN"], ["xforeign", 1, 700 + k, sel], ["xforeign", 0, 800 + k, 101], ["stream", "full"]]
+        if k % 3 == 0:
+            steps += [["stream", "full"]]
+        if k % 4 == 1:
+            steps = [["book", "OPEN"], ["place", 0, 101, "BACK", 200, 500, None, False], ["deliver", 0, ok], ["xforeign", 1, 700 + k, sel], ["stream", "full"], ["restart"], ["book", "OPEN"], ["stream", "full"]]
+        steps += [["register", 1], ["stream", "full"], ["stream", "full"]]
+        lcases.append({"strategies": 2, "late": [1], "steps": steps})
+    louts = run_impl_parallel("livelib", [{"job": "exec", "cases": ch} for ch in chunked(lcases, 8)], timeout=3600)
+    lres = [r for o in louts for r in o["out"]]
+    lbad = []
+    for i, (c, r) in enumerate(zip(lcases, lres)):
+        for key, desc in livecheck.c11(c, r):
+            lbad.append((i, key, desc))
+    ck.family("strategy_registered_after_first_snapshots", len(lcases), len(lcases), [], sorted({i for i, *_ in lbad}), dist={"adopted_orders": sum(1 for r in lres for o in r[-1]["orders"])})
+    seenk = set()
+    for i, key, desc in lbad:
+        if key not in seenk:
+            seenk.add(key)
+            ck.fail(key, desc + " (strategy 1 registered after the first snapshots)", {"case": lcases[i], "how": "harness/impl/livelib.py job 'exec' with late registration"})
     n = 2500 if thorough else 500
     livegen.run_live_family(ck, "random_schedules_with_restarts", [livegen.gen_script(rng, {"restart": True, "max_len": 30, "p_unknown": 0.0, "p_async": 0.25}) for _ in range(n)], chk, PID)
     livegen.run_live_family(ck, "short_schedules_few_orders", [livegen.gen_script(rng, {"restart": True, "min_len": 3, "max_len": 10, "p_unknown": 0.0, "p_async": 0.3, "strategies": 1}) for _ in range(n)], chk, PID)
